@@ -265,6 +265,37 @@ func main() {
 			}
 		}
 	}
+	// millions of pairs, then Clear, then reuse (a Clear that takes a short cut above a size)
+	{
+		n := ev.Pick(r, 4<<20+5, 9<<20+5)
+		b := &maps.Bimap[int32, int32]{}
+		for i := 0; i < n; i++ {
+			b.Add(int32(i), int32(-i-1))
+		}
+		bad := ""
+		if b.Len() != n {
+			bad = fmt.Sprintf("after %d Adds of distinct pairs Len = %d", n, b.Len())
+		}
+		b.Clear()
+		if v, ok := b.GetForward(5); ok || b.Len() != 0 || b.ContainsForward(7) || b.ContainsReverse(-8) {
+			bad = fmt.Sprintf("after Clear of %d pairs: Len %d, GetForward(5) = (%d,%v), ContainsReverse(-8) = %v", n, b.Len(), v, ok, b.ContainsReverse(-8))
+		}
+		if k, ok := b.GetReverse(-6); ok {
+			bad = fmt.Sprintf("after Clear of %d pairs GetReverse(-6) = (%d,true)", n, k)
+		}
+		c := b.Clone()
+		if _, ok := c.GetReverse(-6); ok || c.Len() != 0 {
+			bad = fmt.Sprintf("the clone of a cleared Bimap of %d pairs still answers GetReverse", n)
+		}
+		b.Add(1, -2)
+		if k, ok := b.GetReverse(-2); !ok || k != 1 || b.Len() != 1 || b.ContainsReverse(-3) {
+			bad = fmt.Sprintf("after Clear of %d pairs and one Add: Len %d, GetReverse(-2) = (%d,%v), ContainsReverse(-3) = %v", n, b.Len(), k, ok, b.ContainsReverse(-3))
+		}
+		if bad != "" {
+			r.Report(ev.Violation{Sig: "family|huge-clear", Msg: bad, Replay: map[string]any{"family": "huge-clear", "pairs": n}})
+		}
+		r.Set("huge_clear_pairs", n)
+	}
 	typedStates := allTypedBimaps(r)
 	r.Set("key_value_type_states", typedStates)
 	// Large-size family: up to 200 pairs with every collision pattern, against a pair model
